@@ -3,9 +3,9 @@
    runs EVERY order of the collection (or the listed orders) on the real classes, and records after every single
    insertion whether it raised UPConflictingEffectsException and the bookkeeping attributes (_effects,
    _fluents_assigned, _fluents_inc_dec, _simulated_effect(s)) of every watched time point.  [ok] recomputes the
-   same trace with the model and compares everything (observations travel as one number per insertion order,
-   see [enc_order]). *)
-From Coq Require Import List ZArith NArith QArith Bool.
+   same trace with the model and compares everything (observations travel as a digit stream packed into
+   63-bit integers, see [enc_case]). *)
+From Coq Require Import List ZArith NArith QArith Bool Uint63.
 Import ListNotations.
 Require Import UPV.Model.Conflicts.
 
@@ -30,8 +30,9 @@ Record case := Case {
                                       exactly these insertion orders *)
   c_watch : list N;                (* time points whose bookkeeping is recorded *)
   c_values : list value;           (* table of the value expressions that occur (a value is sent as its index) *)
-  c_obs : list N                   (* per order: [enc_order] of the per-insertion (raised?, snapshots of the watched
-                                      points) as observed on the implementation *)
+  c_obs : list int                 (* [enc_case] of everything observed on the implementation: for the prefix
+                                      history and then for every order, per insertion: raised? and the change of
+                                      the bookkeeping of every watched time point *)
 }.
 
 Fixpoint selects {A} (l : list A) : list (A * list A) :=
@@ -100,6 +101,15 @@ Definition dedup_first (ps : list (list nat)) : list (list nat) :=
 Definition orders_of (c : case) : list (list nat) :=
   match c_orders c with [] => dedup_first (perms (c_items c)) | os => os end.
 
+(* the prefix history, from the empty container *)
+Definition model_pre (c : case) : list (bool * list snap) :=
+  let u := c_universe c in
+  match c_kind c with
+  | CInst => trace_inst tp_empty (map (fun p => nth_item u (snd p)) (c_pre c))
+  | _ => trace_timed (c_watch c) [] (map (fun p => (fst p, nth_item u (snd p))) (c_pre c))
+  end.
+
+(* every insertion order of the collection, each from the container left by the prefix history *)
 Definition model_obs (c : case) : list (list (bool * list snap)) :=
   let u := c_universe c in
   match c_kind c with
@@ -111,6 +121,8 @@ Definition model_obs (c : case) : list (list (bool * list snap)) :=
       map (fun o => trace_timed (c_watch c) m0 (map (fun i => (c_t c, nth_item u i)) o)) (orders_of c)
   end.
 
+Definition watch_count (c : case) : nat := match c_kind c with CInst => 1 | _ => length (c_watch c) end.
+
 (* a Problem has no simulated effects: such a case is malformed *)
 Definition well_formed (c : case) : bool :=
   match c_kind c with
@@ -119,14 +131,16 @@ Definition well_formed (c : case) : bool :=
   end
   && forallb (fun i => Nat.ltb i (length (c_universe c))) (c_items c ++ map snd (c_pre c) ++ concat (c_orders c)).
 
-Definition step_eqb (a b : bool * list snap) : bool :=
-  Bool.eqb (fst a) (fst b) && list_eqb snap_eqb (snd a) (snd b).
-
-(* ---- compact transport of observations: one number per insertion.
-   A step is flattened to a list of digits (length-prefixed lists, so the flattening is injective), the digits must
-   all be < 64 (checked: [digits_ok]), and the digits of all steps of one insertion order are read as one base-64
-   numeral with a leading 1 ([enc_order]).  The harness computes the same number from the attributes of the real
-   objects; equal numbers <=> equal traces (positional notation with a leading non-zero digit is injective). *)
+(* ---- compact transport of observations.
+   Every insertion is sent as digits < 64: the raised flag, then for every watched time point the CHANGE of its
+   bookkeeping with respect to the previous step ([0] = nothing changed; otherwise 1 followed by: the tag appended
+   to the stored effects, the entry appended to fluents_assigned, the fluent added to fluents_inc_dec, the new
+   simulated effect -- each 0 when that attribute did not change).  A change of any other shape is the invalid
+   digit 64 on this side (then [ok] is false) and reported directly by the harness on the implementation side.
+   Both traces start from the empty container, so equal digit streams mean equal snapshots after every insertion.
+   The stream of the whole case (prefix history, then every order) is cut into groups of 10 digits, each group is
+   read in base 64 behind a leading digit 1 and sent as a 63-bit integer; every step has a self-delimiting layout
+   and the number of steps is fixed by the case, so equal integer lists <=> equal streams. *)
 Definition base : N := 64.
 
 Fixpoint vcode_from (k : N) (tbl : list value) (v : value) : N :=
@@ -136,46 +150,88 @@ Fixpoint vcode_from (k : N) (tbl : list value) (v : value) : N :=
   end.
 Definition vcode (tbl : list value) (v : value) : N := vcode_from 0 tbl v.
 
-Definition len_digit {A} (l : list A) : N := N.of_nat (length l).
+(* [cur] = [prev ++ [x]] ?  returns x *)
+Fixpoint appended {A} (e : A -> A -> bool) (prev cur : list A) : option A :=
+  match prev, cur with
+  | [], [x] => Some x
+  | p :: prev', q :: cur' => if e p q then appended e prev' cur' else None
+  | _, _ => None
+  end.
 
-(* fluents_inc_dec is a set: bit mask over the fluent numbers 0..5; any other member makes the digit invalid *)
-Definition mask_digit (s : list N) : N :=
-  if forallb (fun f => (f <? 6)%N) s
-  then fold_right (fun f acc => if mem f s then (acc + N.shiftl 1 f)%N else acc) 0%N [0;1;2;3;4;5]%N
-  else base.
+Definition entry_eqb (x y : N * value) : bool := (fst x =? fst y)%N && value_same (snd x) (snd y).
 
-Definition snap_digits (tbl : list value) (x : snap) : list N :=
-  (len_digit (sn_effects x) :: sn_effects x)
-  ++ (len_digit (sn_assigned x) :: flat_map (fun p => [fst p; vcode tbl (snd p)]) (sn_assigned x))
-  ++ [mask_digit (sn_incdec x)]
-  ++ match sn_sim x with None => [0%N] | Some F => N.succ (len_digit F) :: F end.
+Definition d_effects (prev cur : list N) : list N :=
+  if list_eqb N.eqb prev cur then [0%N]
+  else match appended N.eqb prev cur with Some t => [N.succ t] | None => [base] end.
 
-Definition step_digits (tbl : list value) (st : bool * list snap) : list N :=
-  (if fst st then 1%N else 0%N) :: flat_map (snap_digits tbl) (snd st).
+Definition d_assigned (tbl : list value) (prev cur : list (N * value)) : list N :=
+  if list_eqb entry_eqb prev cur then [0%N]
+  else match appended entry_eqb prev cur with Some (f, v) => [N.succ f; vcode tbl v] | None => [base] end.
+
+Definition d_incdec (prev cur : list N) : list N :=
+  if set_eqb prev cur then [0%N]
+  else match filter (fun f => negb (mem f prev)) cur with
+       | [f] => if subset prev cur then [N.succ f] else [base]
+       | _ => [base]
+       end.
+
+Definition sim_eqb (a b : option (list N)) : bool :=
+  match a, b with None, None => true | Some x, Some y => list_eqb N.eqb x y | _, _ => false end.
+
+Definition d_sim (prev cur : option (list N)) : list N :=
+  if sim_eqb prev cur then [0%N]
+  else match cur with Some F => N.succ (N.of_nat (length F)) :: F | None => [base] end.
+
+Definition d_snap (tbl : list value) (prev cur : snap) : list N :=
+  if snap_eqb prev cur then [0%N]
+  else 1%N :: d_effects (sn_effects prev) (sn_effects cur) ++ d_assigned tbl (sn_assigned prev) (sn_assigned cur)
+           ++ d_incdec (sn_incdec prev) (sn_incdec cur) ++ d_sim (sn_sim prev) (sn_sim cur).
+
+Fixpoint d_snaps (tbl : list value) (prev cur : list snap) : list N :=
+  match prev, cur with
+  | p :: prev', q :: cur' => d_snap tbl p q ++ d_snaps tbl prev' cur'
+  | [], [] => []
+  | _, _ => [base]
+  end.
+
+Fixpoint steps_digits (tbl : list value) (prev : list snap) (steps : list (bool * list snap)) : list N :=
+  match steps with
+  | [] => []
+  | (r, cur) :: rest => (if r then 1%N else 0%N) :: d_snaps tbl prev cur ++ steps_digits tbl cur rest
+  end.
+
+Definition empty_snaps (n : nat) : list snap := repeat (snap_of tp_empty) n.
+
+Definition last_snaps (start : list snap) (steps : list (bool * list snap)) : list snap :=
+  match rev steps with (_, x) :: _ => x | [] => start end.
+
+Definition case_digits (c : case) : list N :=
+  let tbl := c_values c in
+  let e0 := empty_snaps (watch_count c) in
+  let pre := model_pre c in
+  let s0 := last_snaps e0 pre in
+  steps_digits tbl e0 pre ++ flat_map (steps_digits tbl s0) (model_obs c).
 
 Definition digits_ok (ds : list N) : bool := forallb (fun d => (d <? base)%N) ds.
 
-(* the digits d1..dk as the number d1*64^(k-1) + ... + dk *)
-Definition num0 (ds : list N) : N := fold_left (fun acc d => (N.shiftl acc 6 + d)%N) ds 0%N.
+(* groups of at most 10 digits; each group d1..dk is the number 1 d1 .. dk in base 64 (< 2^61) *)
+Fixpoint groups (fuel : nat) (ds : list N) : list N :=
+  match fuel with
+  | O => []
+  | S fuel' =>
+      match ds with
+      | [] => []
+      | _ => fold_left (fun acc d => (N.shiftl acc 6 + d)%N) (firstn 10 ds) 1%N :: groups fuel' (skipn 10 ds)
+      end
+  end.
 
-(* one insertion order = the concatenation of the digits of its steps, read in base 64 after a leading digit 1
-   (computed step by step: acc * 64^|ds| + num0 ds).  0 is never a valid numeral, so a model trace with an invalid
-   digit can never equal an observation. *)
-Definition enc_order (tbl : list value) (steps : list (bool * list snap)) : N :=
-  let dss := map (step_digits tbl) steps in
-  if forallb digits_ok dss
-  then fold_left (fun acc ds => (N.shiftl acc (6 * N.of_nat (length ds)) + num0 ds)%N) dss 1%N
-  else 0%N.
-
-Definition model_enc (c : case) : list N := map (enc_order (c_values c)) (model_obs c).
+Definition enc_case (c : case) : option (list N) :=
+  let ds := case_digits c in
+  if digits_ok ds then Some (groups (S (length ds)) ds) else None.
 
 Definition ok (c : case) : bool :=
-  well_formed c && list_eqb N.eqb (model_enc c) (c_obs c).
-
-(* fast literals for the (large) observation numbers: the standard N notation converts decimal digits inside Coq,
-   this one lets the parser build the binary number *)
-Definition n_of_Z (z : Z) : option N := match z with Zneg _ => None | _ => Some (Z.to_N z) end.
-Definition n_to_Z (n : N) : Z := Z.of_N n.
-Declare Scope c24_scope.
-Delimit Scope c24_scope with c24.
-Number Notation N n_of_Z n_to_Z : c24_scope.
+  well_formed c &&
+  match enc_case c with
+  | Some gs => list_eqb N.eqb gs (map (fun i => Z.to_N (Uint63.to_Z i)) (c_obs c))
+  | None => false
+  end.
